@@ -64,7 +64,7 @@ fn alphabet(n: usize, tier: Tier) -> Vec<Dev> {
             s.variants[i].serialize = vec!["zz".into(), "longer".into()];
             true
         }));
-        for l in ["t", "tttt", "É"] {
+        for l in ["t", "tttt", "É", "a{{b}}"] {
             d.push(dev(format!("v{}.to_string={:?}", i, l), &[&format!("tos{}", i)], move |s| {
                 s.variants[i].to_string = Some(l.to_string());
                 true
@@ -81,6 +81,13 @@ fn alphabet(n: usize, tier: Tier) -> Vec<Dev> {
             }));
         }
         // a raw identifier stands for the identifier without `r#`
+        d.push(dev(format!("v{}.ident=ÉtéÑu", i), &[&format!("id{}", i)], move |s| {
+            if s.variants.iter().any(|v| v.ident == "ÉtéÑu") {
+                return false;
+            }
+            s.variants[i].ident = "ÉtéÑu".into();
+            true
+        }));
         d.push(dev(format!("v{}.ident=r#try", i), &[&format!("id{}", i)], move |s| {
             if s.variants.iter().any(|v| v.ident == "r#try") {
                 return false;
